@@ -1,7 +1,7 @@
 (** * Judging a case: does the model agree with what the implementation returned, and does the
     implementation's output satisfy the property checkers. Evaluated by [vm_compute] on [NumF]. *)
 From Coq Require Import ZArith Bool List String Floats.
-From RDM Require Import Base.Num Base.NumF Base.Util Model.Data Model.Rank Model.Pipeline Check.Mk Check.C04.
+From RDM Require Import Base.Num Base.NumF Base.Util Model.Data Model.Rank Model.Pipeline Check.Mk Check.C04 Check.C01 Check.C03 Check.C05 Check.C11 Check.C12 Check.C13.
 Import ListNotations.
 
 Definition obs_echo := (string * float * bool)%type.
@@ -51,3 +51,61 @@ Definition j_C04_obs (o : observed) : list nat :=
 
 (* full correspondence of a request: [agree code] *)
 Definition j_agree (c : case) : list nat := [ agree (decide (k_env c) (k_req c)) (k_obs c) ].
+
+(** ** universal judge: one pass computes the agreement code and every method-level checker.
+    [x_final] is the state the method was evaluated on, as dumped from the running code. *)
+Record xcase := { x_env : @env NumF; x_req : @request NumF; x_final : option (@state NumF); x_obs : observed }.
+Definition mkX e r f o := {| x_env := e; x_req := r; x_final := f; x_obs := o |}.
+
+Definition b2n (b : bool) : nat := if b then 0 else 1.
+Definition is_method (c : xcase) (m : string) : bool := String.eqb (r_method (x_req c)) m.
+
+(* structure-only correspondence for C01: the ranking *builders* of the model applied to the
+   implementation's own evaluations must give the implementation's entries *)
+Fixpoint sequential_links_ok (l : list (@entry NumF)) : bool :=
+  match l with
+  | [] => true
+  | e :: r => match r with
+              | [] => match e_links e with [] => true | _ => false end
+              | e2 :: _ => list_eqb String.eqb (e_links e) [eid e2] && sequential_links_ok r
+              end
+  end.
+Definition C01_struct (c : xcase) (r : list (@entry NumF)) (ag : nat) : bool :=
+  if is_method c m_ws || is_method c m_owa || is_method c m_choquet then
+    list_eqb entry_same (ranking (map (fun e => (e_alt e, val e)) r)) r
+  else if is_method c m_electre then
+    forallb (fun e => list_eqb String.eqb (e_links e) (links_by_indices r e)) r
+  else if is_method c m_aspect || is_method c m_satisfaction then sequential_links_ok r
+  else Nat.eqb ag 0.
+
+(* values-only correspondence for C03: every alternative gets the value the model computes *)
+Definition values_agree (m : res (@response NumF)) (r : list (@entry NumF)) : bool :=
+  match m with
+  | Ok mr => forallb (fun e => match find (fun x => String.eqb (eid x) (eid e)) (resp_result mr) with
+                               | Some x => eval_same (e_eval x) (e_eval e)
+                               | None => false
+                               end) r
+  | Err _ => false
+  end.
+
+(* columns: 0 agree | 1 C01 | 2 C03 (0 ok, 1 violated, 2 = known unweighted weighted-sum) | 3 C04
+            | 4 C05 | 5 C11 | 6 C12 | 7 C13 | 8 C01 structure correspondence | 9 C03 values correspondence *)
+Definition judge_all (c : xcase) : list nat :=
+  let md := decide (x_env c) (x_req c) in
+  let ag := agree md (x_obs c) in
+  match x_obs c, x_final c with
+  | ObsOk r _, Some st =>
+      let util := is_method c m_ws || is_method c m_owa || is_method c m_choquet in
+      [ ag;
+        b2n (C01_ok (expected_ids (x_req c)) r);
+        if util then C03_code st r else 0;
+        if util then b2n (C04_ok r) else 0;
+        if is_method c m_electre then b2n (C05_ok st r) else 0;
+        if is_method c m_majority then b2n (C11_ok st r) else 0;
+        if is_method c m_aspect then b2n (C12_ok st r) else 0;
+        if is_method c m_satisfaction then b2n (C13_ok st r) else 0;
+        b2n (C01_struct c r ag);
+        if util then b2n (values_agree md r) else 0 ]
+  | ObsOk r _, None => [ ag; b2n (C01_ok (expected_ids (x_req c)) r); 0; 0; 0; 0; 0; 0; b2n (C01_struct c r ag); 0 ]
+  | ObsErr, _ => [ ag; 0; 0; 0; 0; 0; 0; 0; 0; 0 ]
+  end.
